@@ -1,11 +1,225 @@
 import SigModel.Driver.Loop
+import SigModel.Spec.Perm
 
-/-! Driver for C08 — stub (no model yet). -/
+/-! Driver for C08: the model of `Model/Perm.lean` with the configuration read from
+the source, run at the granularity of the harness (every operation to quiescence:
+a permission update is `SetPermissions` followed by its revocation goroutine), and
+the judge of `Spec/Perm.lean` on the implementation's output.
+
+Output of an operation (both sides): `outcome ; messages ; media-server log ; open objects`,
+the last three sorted. -/
 namespace SigModel.Driver.C08
+open SigModel.Proto SigModel.Perm
+
+def nSessions : Nat := 4
+def internals : List Nat := [3]
 
 structure St where
-  dummy : Unit := ()
+  model : SigModel.Perm.St := SigModel.Perm.St.init nSessions internals
+  judge : Spec.Judge := {}
 
-def step (st : St) (_op _impl : List String) : St × String × String := (st, "bad-op", "na")
+/-! ### parsing -/
+
+def permOfChar (cfg : Cfg) : Char → Option String
+  | 'm' => some cfg.permMedia | 'a' => some cfg.permAudio | 'v' => some cfg.permVideo | 's' => some cfg.permScreen
+  | 'c' => some cfg.permControl | 't' => some cfg.permTransient | 'h' => some "hide-displaynames" | 'x' => some "bogus"
+  | _ => none
+
+def parsePermSet (cfg : Cfg) (tok : String) : Option (List String) :=
+  if tok == "-" then some [] else tok.toList.mapM (permOfChar cfg)
+
+/-- `=`: the join reply carries no permissions. -/
+def parseJoinPerms (cfg : Cfg) (tok : String) : Option (Option (List String)) :=
+  if tok == "=" then some none else (parsePermSet cfg tok).map some
+
+def parseMLines (tok : String) : Option (List MLine) :=
+  if tok == "-" then some [] else tok.toList.mapM fun
+    | 'a' => some MLine.audio | 'v' => some MLine.video | 'o' => some MLine.other | _ => none
+
+def parseKind (tok : String) : Option Kind :=
+  if tok == "answer" then some .answer else if tok == "candidate" then some .candidate
+  else if tok == "endOfCandidates" then some .endOfCandidates else if tok == "selectStream" then some .selectStream
+  else if tok == "foo" then some .other else none
+
+def sessTok (tok : String) : Option Nat := do
+  let n ← toNat? tok
+  if n < nSessions then some n else none
+
+/-- a recipient: a session or `9` (an id no session has) -/
+def rcptTok (tok : String) : Option Nat := do
+  let n ← toNat? tok
+  if n < nSessions || n == 9 then some n else none
+
+def roomTok (tok : String) : Option Nat := do
+  let n ← toNat? tok
+  if n == 1 || n == 2 || n == 9 then some n else none
+
+def flagTok (tok : String) : Option Bool :=
+  if tok == "0" || tok == "6" then some false else if tok == "1" || tok == "7" then some true else none
+
+def parseRcpt (tok : String) : Option Rcpt :=
+  if tok == "room" then some .room else if tok == "call" then some .call
+  else if hasPrefix "s" tok then (rcptTok (dropS 1 tok)).map .session else none
+
+def badCodes : List (String × String) :=
+  [("roomtype", "invalid_format"), ("nosdp", "no_sdp"), ("sdptype", "invalid_sdp"), ("sdpparse", "invalid_sdp")]
+
+/-- `roomOf s`: the room `.` stands for (the session's current room, 9 if none). -/
+def parseOp (cfg : Cfg) (roomOf : Nat → Nat) : List String → Option HOp
+  | ["join", s, r, p] => do
+    let r ← roomTok r
+    if r == 9 then none else some (.join (← sessTok s) r (← parseJoinPerms cfg p))
+  | ["leave", s] => do some (.leave (← sessTok s))
+  | ["perms", s, p] => do some (.perms (← sessTok s) (← parsePermSet cfg p))
+  | ["permsd", s, p] => do some (.permsDirect (← sessTok s) (← parsePermSet cfg p))
+  | ["permsbad", s, k] => do if k == "notlist" || k == "notstring" then some (.permsBad (← sessTok s)) else none
+  | ["incall", s, r, f] => do
+    let s ← sessTok s
+    let r ← if r == "." then some (roomOf s) else roomTok r
+    some (.incall s r (← flagTok f))
+  | ["incallall", r, f] => do some (.incallAll (← roomTok r) (← flagTok f))
+  | ["close", s] => do some (.close (← sessTok s))
+  | ["any", b] => if b == "1" then some (.any true) else if b == "0" then some (.any false) else none
+  | ["offer", s, t, m] => do some (.offer (← sessTok s) (← dec t) (← parseMLines m))
+  | ["mcu", s, r, k, t] => do some (.msg (← sessTok s) (← rcptTok r) (← parseKind k) (← dec t))
+  | ["request", s, p, t] => do some (.request (← sessTok s) (← rcptTok p) (← dec t))
+  | ["sendoffer", s, r, t] => do some (.sendoffer (← sessTok s) (← rcptTok r) (← dec t))
+  | ["badmsg", s, k] => do some (.badmsg (← sessTok s) (← badCodes.lookup k))
+  | ["control", s, rc] => do some (.control (← sessTok s) (← parseRcpt rc))
+  | ["tset", s, k, v] => do some (.transient (← sessTok s) (.set (← dec k) (← dec v)))
+  | ["tremove", s, k] => do some (.transient (← sessTok s) (.remove (← dec k)))
+  | ["tother", s] => do some (.transient (← sessTok s) .other)
+  | ["state"] => some .state
+  | _ => none
+
+/-! ### running an operation to quiescence -/
+
+/-- the revocation goroutines of session `i` that are still to run -/
+def drainSess (cfg : Cfg) (i : Nat) : Nat → SigModel.Perm.St × List Ev → SigModel.Perm.St × List Ev
+  | 0, r => r
+  | k + 1, (st, ev) =>
+    if (st.sess i).sweeps = 0 then (st, ev)
+    else
+      let r := step cfg st (.sweep i)
+      drainSess cfg i k (r.1, ev ++ r.2)
+
+def drain (cfg : Cfg) (r : SigModel.Perm.St × List Ev) : SigModel.Perm.St × List Ev :=
+  (List.range nSessions).foldl (fun r i => drainSess cfg i (r.1.sess i).sweeps r) r
+
+def act (cfg : Cfg) (st : SigModel.Perm.St) (a : Act) : SigModel.Perm.St × List Ev := drain cfg (step cfg st a)
+
+def clientOp (cfg : Cfg) (st : SigModel.Perm.St) (s : Nat) (a : Act) : SigModel.Perm.St × String × List Ev :=
+  if !(st.sess s).live then (st, "closed", [])
+  else
+    let r := act cfg st a
+    (r.1, "ok", r.2)
+
+def hexec (cfg : Cfg) (st : SigModel.Perm.St) : HOp → SigModel.Perm.St × String × List Ev
+  | .join s r perms =>
+    let x := st.sess s
+    if !x.live then (st, "closed", [])
+    else if x.room == some r then (st, "already", [.reply s "already_joined"])
+    else
+      let res := act cfg st (.join s r (if x.internal then none else perms))
+      (res.1, "ok", res.2)
+  | .leave s =>
+    let x := st.sess s
+    if !x.live then (st, "closed", [])
+    else if x.room.isNone then (st, "noroom", [])
+    else
+      let res := act cfg st (.leave s)
+      (res.1, "ok", res.2)
+  | .perms s p =>
+    let x := st.sess s
+    if x.live && x.room.isSome then
+      let res := act cfg st (.setPerms s p)
+      (res.1, "200", res.2)
+    else (st, "200", [])
+  | .permsDirect s p =>
+    let res := act cfg st (.setPerms s p)
+    (res.1, "ok", res.2)
+  | .permsBad _ => (st, "200", [])
+  | .incall s r f =>
+    let res := act cfg st (.incall s r f)
+    (res.1, "200", res.2)
+  | .incallAll r f =>
+    let res := act cfg st (.incallAll r f)
+    (res.1, "200", res.2)
+  | .close s =>
+    if !(st.sess s).live then (st, "closed", [])
+    else
+      let res := act cfg st (.close s)
+      (res.1, "ok", res.2)
+  | .any b => ((step cfg st (.setAllowAny b)).1, "ok", [])
+  | .offer s t ml => clientOp cfg st s (.offer s t ml)
+  | .msg s r k t => clientOp cfg st s (.msg s r k t)
+  | .request s p t => clientOp cfg st s (.request s p t)
+  | .sendoffer s r t => clientOp cfg st s (.sendoffer s r t)
+  | .badmsg s code => if !(st.sess s).live then (st, "closed", []) else (st, "ok", [.reply s code])
+  | .control s rc => clientOp cfg st s (.control s rc)
+  | .transient s a => clientOp cfg st s (.transient s a)
+  | .state => (st, "ok", [])
+
+/-! ### rendering -/
+
+def mediaTok (m : Media) : String :=
+  let s := (if m.audio then "a" else "") ++ (if m.video then "v" else "") ++ (if m.screen then "s" else "")
+  if s == "" then "n" else s
+
+def insertSorted (x : String) : List String → List String
+  | [] => [x]
+  | y :: ys => if x ≤ y then x :: y :: ys else y :: insertSorted x ys
+
+def sortStrings (xs : List String) : List String := xs.foldr insertSorted []
+
+def replyTok (what : String) : String :=
+  if what == "answer" || hasPrefix "offer<" what then what else "err." ++ what
+
+def msgToks (evs : List Ev) : List String :=
+  evs.filterMap fun
+    | .reply s w => some s!"{s}:{replyTok w}"
+    | .deliver to w frm => some s!"{to}:{w}<{frm}"
+    | .tev to w => some s!"{to}:{w}"
+    | _ => none
+
+def logToks (evs : List Ev) : List String :=
+  evs.filterMap fun
+    | .pubNew s t m => some s!"new:{s}/p/{enc t}/{mediaTok m}"
+    | .pubSet s t m => some s!"set:{s}/p/{enc t}/{mediaTok m}"
+    | .pubMsg s t k => some s!"msg:{s}/p/{enc t}<{k.name}"
+    | .pubClose s t => some s!"close:{s}/p/{enc t}"
+    | .subNew s src t => some s!"new:{s}/s/{src}/{enc t}"
+    | .subMsg s src t k => some s!"msg:{s}/s/{src}/{enc t}<{k.name}"
+    | .subClose s src t => some s!"close:{s}/s/{src}/{enc t}"
+    | _ => none
+
+def openToks (st : SigModel.Perm.St) : List String :=
+  (List.range st.n).flatMap fun i =>
+    let x := st.sess i
+    x.pubs.map (fun p => s!"{i}/p/{enc p.stream}/{mediaTok p.media}") ++ x.subs.map (fun b => s!"{i}/s/{b.src}/{enc b.stream}")
+
+def sect (xs : List String) : String := if xs.isEmpty then "-" else joinToks (sortStrings xs)
+
+def render (st : SigModel.Perm.St) (outcome : String) (evs : List Ev) : String :=
+  outcome ++ " ; " ++ sect (msgToks evs) ++ " ; " ++ sect (logToks evs) ++ " ; " ++ sect (openToks st)
+
+def roomOfModel (st : SigModel.Perm.St) (s : Nat) : Nat := ((st.sess s).room).getD 9
+def roomOfJudge (j : Spec.Judge) (s : Nat) : Nat := ((j.get s).room).getD 9
+
+/-- empty sections are written `-` -/
+def undash (impl : List String) : List String := impl.filter (· != "-")
+
+def step (st : St) (op impl : List String) : St × String × String :=
+  match parseOp codeCfg (roomOfModel st.model) op with
+  | none => (st, "bad-op", "na")
+  | some o =>
+    let (m', outcome, evs) := hexec codeCfg st.model o
+    let out := render m' outcome evs
+    let (j', v) :=
+      if impl.isEmpty then (st.judge, "na")
+      else match parseOp codeCfg (roomOfJudge st.judge) op with
+        | some jo => st.judge.observe jo (undash impl)
+        | none => (st.judge, "na")
+    ({ model := m', judge := j' }, out, v)
 
 end SigModel.Driver.C08
